@@ -214,8 +214,37 @@ func runWorkload(t *testing.T, seed int64) workload {
 	}
 	p.Close()
 	txp.Close()
-	w.closeAt = fs.Len()
 	c.Close()
+	// second life on the same directory: a clean restart, a few more acknowledged produces and commits (no segment roll),
+	// then another clean Close. Crash points inside this phase meet state written by the first Close (snapshots).
+	c2, err := kfake.NewCluster(kfake.NumBrokers(1), kfake.DataDir("/data"), kfake.SyncWrites(), kfake.VerifWithFS(fs))
+	if err != nil {
+		t.Fatalf("clean restart failed: %v", err)
+	}
+	p2, _ := kgo.NewClient(kgo.SeedBrokers(c2.ListenAddrs()...), kgo.DisableClientMetrics(), kgo.RecordPartitioner(kgo.ManualPartitioner()), kgo.DefaultProduceTopic("t"))
+	adm2 := kadm.NewClient(p2)
+	for i := 0; i < 3+r.Intn(4); i++ {
+		if r.Intn(4) != 0 {
+			produce(p2, int32(r.Intn(2)), "produce")
+		} else {
+			g := w.groups[r.Intn(2)]
+			part := int32(r.Intn(2))
+			off := int64(r.Intn(int(produced[part]) + 1))
+			var os kadm.Offsets
+			os.Add(kadm.Offset{Topic: "t", Partition: part, At: off, LeaderEpoch: -1})
+			if _, err := adm2.CommitOffsets(ctx, g, os); err != nil {
+				t.Fatalf("commit: %v", err)
+			}
+			w.acks = append(w.acks, ack{At: fs.Len(), Kind: "commit", ID: fmt.Sprintf("%s/t/%d", g, part), Off: off})
+		}
+	}
+	w.final = readState(c2.ListenAddrs(), w.groups)
+	if w.final.Err != "" {
+		t.Fatalf("reading the live state (second life): %s", w.final.Err)
+	}
+	p2.Close()
+	w.closeAt = fs.Len()
+	c2.Close()
 	w.journal = fs.Journal
 	return w
 }
